@@ -145,6 +145,8 @@ struct Case {
     /// multi-iterator history (C19): number of fresh iterators over the one collection; programs carry `@j:` tags
     multi: usize,
     mprogs: Vec<Vec<(usize, MOp, String)>>,
+    /// how the harness consumes a chunk: next (default) | nth | skip | last | count | fold | stepby (ledger-only cases)
+    chunkstyle: String,
 }
 
 fn on_parse(s: &str) -> Option<u64> {
@@ -210,6 +212,7 @@ fn read_cases(input: &mut dyn BufRead) -> Vec<Case> {
                     freeze: None,
                     multi: 0,
                     mprogs: vec![],
+                    chunkstyle: String::new(),
                 })
             }
             "env" => {
@@ -252,6 +255,7 @@ fn read_cases(input: &mut dyn BufRead) -> Vec<Case> {
             "reps" => cur.as_mut().unwrap().reps = w[1].parse().unwrap(),
             "freeze" => cur.as_mut().unwrap().freeze = Some((w[1].parse().unwrap(), w[2].parse().unwrap())),
             "elem" => cur.as_mut().unwrap().env.elem = w[1].to_string(),
+            "chunkstyle" => cur.as_mut().unwrap().chunkstyle = w[1].to_string(),
             "multi" => {
                 let c = cur.as_mut().unwrap();
                 c.multi = w[1].parse().unwrap();
@@ -371,6 +375,7 @@ fn panic_kind(p: &Box<dyn std::any::Any + Send>) -> String {
 
 // ---------------------------------------------------------------- shim glue
 
+static STYLE: std::sync::Mutex<String> = std::sync::Mutex::new(String::new());
 static C_ADDR: AtomicUsize = AtomicUsize::new(0);
 /// multi-iterator histories: every recorded line is tagged with the iterator the thread is operating on
 static MULTI: std::sync::atomic::AtomicBool = std::sync::atomic::AtomicBool::new(false);
@@ -434,6 +439,81 @@ fn after(op: &AOp, r: usize) {
 
 const HANG: &str = "hang";
 
+thread_local! {
+    static CHUNK_STYLE: RefCell<String> = const { RefCell::new(String::new()) };
+}
+
+/// takes elements out of a chunk the way the case says: the first `k` with next() (what the model describes), or
+/// through one of the other methods of Iterator (ledger-only cases: every element not handed to the caller must
+/// still be destroyed exactly once)
+fn consume<T: Val, V: ExactSizeIterator<Item = T>>(mut values: V, b: u64, k: u64, kept: &mut Vec<T>) -> (Vec<(Option<u64>, u64)>, usize) {
+    let style = CHUNK_STYLE.with(|c| c.borrow().clone());
+    let mut taken = vec![];
+    let n = values.len() as u64;
+    match style.as_str() {
+        "nth" => {
+            if let Some(x) = values.nth(k as usize) {
+                taken.push((Some(b.wrapping_add(k)), x.value()));
+                kept.push(x);
+            }
+        }
+        "skip" => {
+            let mut s = values.skip(k as usize);
+            if let Some(x) = s.next() {
+                taken.push((Some(b.wrapping_add(k)), x.value()));
+                kept.push(x);
+            }
+            drop(s);
+            return (taken, 0);
+        }
+        "last" => {
+            if let Some(x) = values.last() {
+                taken.push((Some(b.wrapping_add(n - 1)), x.value()));
+                kept.push(x);
+            }
+            return (taken, 0);
+        }
+        "count" => {
+            let _ = values.count();
+            return (taken, 0);
+        }
+        "fold" => {
+            let mut i = 0u64;
+            values.fold((), |_, x| {
+                taken.push((Some(b.wrapping_add(i)), x.value()));
+                kept.push(x);
+                i += 1;
+            });
+            return (taken, 0);
+        }
+        "stepby" => {
+            let mut i = 0u64;
+            for x in values.step_by(2) {
+                taken.push((Some(b.wrapping_add(i)), x.value()));
+                kept.push(x);
+                i += 2;
+            }
+            return (taken, 0);
+        }
+        _ => {
+            let mut i = 0u64;
+            while i < k {
+                match values.next() {
+                    Some(x) => {
+                        taken.push((Some(b.wrapping_add(i)), x.value()));
+                        kept.push(x);
+                    }
+                    None => break,
+                }
+                i += 1;
+            }
+        }
+    }
+    let ann1 = values.len();
+    drop(values);
+    (taken, ann1)
+}
+
 /// runs the program of thread `t` on the shared iterator
 fn thread_body<I>(it: &I, prog: &[(Op, String)], t: usize)
 where
@@ -441,6 +521,7 @@ where
     I::Item: Val,
 {
     sched::TID.with(|c| c.set(t));
+    CHUNK_STYLE.with(|c| *c.borrow_mut() = STYLE.lock().unwrap().clone());
     let mut buf = None; // the thread's buffered iterator (its type cannot be named outside the crate)
     let mut kept: Vec<I::Item> = Vec::with_capacity(64);
     let acc: RefCell<Vec<(Option<u64>, u64)>> = RefCell::new(Vec::new());
@@ -480,22 +561,9 @@ where
                     None => "none".into(),
                     Some(chunk) => {
                         let b = chunk.begin_idx as u64;
-                        let mut values = chunk.values;
+                        let values = chunk.values;
                         let ann0 = values.len();
-                        let mut taken = vec![];
-                        let mut i = 0u64;
-                        while i < *k {
-                            match values.next() {
-                                Some(x) => {
-                                    taken.push((Some(b.wrapping_add(i)), x.value()));
-                                    kept.push(x);
-                                }
-                                None => break,
-                            }
-                            i += 1;
-                        }
-                        let ann1 = values.len();
-                        drop(values);
+                        let (taken, ann1) = consume(values, b, *k, &mut kept);
                         format!("chunk:{}:{}:{}:{}:{}", b, runs(&taken), ann0, taken.len(), ann1)
                     }
                 },
@@ -511,22 +579,9 @@ where
                         None => "none".into(),
                         Some(chunk) => {
                             let b = chunk.begin_idx as u64;
-                            let mut values = chunk.values;
+                            let values = chunk.values;
                             let ann0 = values.len();
-                            let mut taken = vec![];
-                            let mut i = 0u64;
-                            while i < *k {
-                                match values.next() {
-                                    Some(x) => {
-                                        taken.push((Some(b.wrapping_add(i)), x.value()));
-                                        kept.push(x);
-                                    }
-                                    None => break,
-                                }
-                                i += 1;
-                            }
-                            let ann1 = values.len();
-                            drop(values);
+                            let (taken, ann1) = consume(values, b, *k, &mut kept);
                             format!("chunk:{}:{}:{}:{}:{}", b, runs(&taken), ann0, taken.len(), ann1)
                         }
                     },
@@ -971,6 +1026,7 @@ fn run_case_zst(case: &Case) -> Vec<String> {
 }
 
 fn run_case(case: &Case) -> Vec<String> {
+    *STYLE.lock().unwrap() = case.chunkstyle.clone();
     SRC_CALLS.store(0, Ordering::SeqCst);
     SRC_CRASH.store(case.env.crash.map(|x| x as usize).unwrap_or(usize::MAX), Ordering::SeqCst);
     CALLER_PHASE.store(false, Ordering::SeqCst);
@@ -1009,7 +1065,9 @@ fn run_case(case: &Case) -> Vec<String> {
             drive(case, v.as_slice().into_con_iter().copied())
         }
         ("vec", _) => {
-            let v: Vec<E> = (0..len).map(E::new).collect();
+            // with spare capacity: length and capacity differ
+            let mut v: Vec<E> = Vec::with_capacity(len as usize + 3);
+            v.extend((0..len).map(E::new));
             drive(case, v.into_con_iter())
         }
         ("array", _) => array_case!(case, 0, 1, 2, 3, 4, 5, 6, 7, 8, 9, 10, 11, 12),
